@@ -272,3 +272,55 @@ def nullable_deref_rule(m, rid, funcs):
                        "closed by END BLOCK DATA <name>) this is an AttributeError that escapes the parser"
                        % (f.qualname, A.text(n)[:50], subject[:40], call.func.attr), m.loc(f, n))
     return r
+
+
+# =================================================================================================
+# constructor options reach the base class: a subclass __init__ forwards every option it shares with the base __init__
+# =================================================================================================
+def option_forwarding_rule(m, rid, module="fparser.common.readfortran", base_name="FortranReaderBase"):
+    r = RuleResult(rid, "every option a reader subclass accepts and the base reader also has (ignore_comments, include_omp_conditional_lines, "
+                        "process_directives ...) is forwarded to the base constructor under its own name")
+    r.floor = 6
+    bk = m.key(base_name, module)
+    binit = m.method(bk, "__init__")
+    if binit is None:
+        r.error("%s.__init__ vanished" % base_name)
+        return r
+    bparams = A.param_names(binit.node)[1:]
+    for k, c in sorted(m.classes.items()):
+        if c["module"] != module or k == bk or not m.issub(k, bk) or "__init__" not in c["own"]:
+            continue
+        f = m.method(k, "__init__")
+        sparams = A.param_names(f.node)[1:]
+        calls = [x for x in A.calls(f.node) if isinstance(x.func, ast.Attribute) and x.func.attr == "__init__"
+                 and (A.text(x.func.value) in ("super()", base_name) or A.text(x.func.value).startswith("super("))]
+        if len(calls) != 1:
+            r.error("%s.__init__: %d calls of the base constructor" % (c["name"], len(calls)))
+            continue
+        call = calls[0]
+        pos = list(call.args)
+        if A.text(call.func.value) == base_name and pos:
+            pos = pos[1:]       # explicit self
+        bound = {}
+        for i, a in enumerate(pos):
+            if i < len(bparams):
+                bound[bparams[i]] = a
+        for kw in call.keywords:
+            if kw.arg:
+                bound[kw.arg] = kw.value
+        for p_ in sparams:
+            if p_ not in bparams:
+                continue
+            r.instances += 1
+            arg = bound.get(p_)
+            ok = arg is not None and p_ in {x.id for x in ast.walk(arg) if isinstance(x, ast.Name)}
+            if not ok:
+                # set afterwards on the instance?
+                ok = any(isinstance(n, ast.Assign) and any(A.text(t) in ("self.%s" % p_, "self._%s" % p_) for t in n.targets)
+                         and p_ in {x.id for x in ast.walk(n.value) if isinstance(x, ast.Name)} for n in A.body_nodes(f.node))
+            r.ob(ok, "%s.__init__: `%s` forwarded" % (c["name"], p_))
+            if not ok:
+                r.fail("%s.__init__|not-forwarded|%s" % (c["name"], p_), "%s.__init__ accepts `%s` but does not pass it on to %s.__init__ (%s): "
+                       "readers of that class silently run with the base default, whatever the caller asked for"
+                       % (c["name"], p_, base_name, "passes `%s` instead" % A.text(arg)[:30] if arg is not None else "argument missing"), m.loc(f, call))
+    return r
